@@ -49,17 +49,19 @@ inline std::mutex& verif_regions_mutex()
   return m;
 }
 
-inline int verif_region_of(const void* p)
+// identity of the live region containing p: its base address (0: in no live region).  (Not the index in the
+// registry: other threads create and destroy their instances between two look-ups.)
+inline uintptr_t verif_region_of(const void* p)
 {
   auto a = reinterpret_cast<uintptr_t>(p);
   std::lock_guard<std::mutex> g(verif_regions_mutex());
   auto& rs = verif_live_regions();
   for (size_t i = 0; i < rs.size(); i++) {
     if (a >= rs[i].base && a - rs[i].base < rs[i].size) {
-      return static_cast<int>(i);
+      return rs[i].base;
     }
   }
-  return -1;
+  return 0;
 }
 
 // a "library": symbol name -> native guest function (guest ABI signature)
